@@ -162,14 +162,14 @@ def search_impl(c, oracle, seconds=None, nhist=40, profiles=('rt', 'layout-pad',
     st = {'configs': 0, 'histories': 0, 'seconds': 0}
     c.coverage.setdefault('failing_input_search', st)
     batch, found = 0, False
-    pending = list(texts)[:12]
+    pending = list(texts)[:48]
     while time.time() - t0 < seconds and not found:
         if pending:
             # configurations on which a correspondence broke: more records, empty arrays favoured, every data
             # stream type, more histories
-            jobs = [dict(seed=880000 + i, yaml_text=t, nrec=24, darr_len=lambda r: r.choice([0, 0, 0, 1, 2, 3]))
-                    for i, t in enumerate(pending)]
-            pending = []
+            jobs = [dict(seed=880000 + len(pending) * 100 + i, yaml_text=t, nrec=24, darr_len=lambda r: r.choice([0, 0, 0, 1, 2, 3]))
+                    for i, t in enumerate(pending[:12])]
+            pending = pending[12:]
             this_nhist = max(nhist, 150)
         else:
             jobs = [dict(seed=c.seed * 1000 + 500000 + batch * 12 + i, profile=profiles[(batch * 12 + i) % len(profiles)],
@@ -190,8 +190,24 @@ def search_impl(c, oracle, seconds=None, nhist=40, profiles=('rt', 'layout-pad',
                 continue
             st['configs'] += 1
             rnd = random.Random(cs.seed * 13 + 5)
-            hists = [gen_hist(rnd, cs.ir, cs.dname, cs.openargs, cs.recs, cs.hdr, cs.sizes, **hist_kwargs)
-                     for _ in range(this_nhist)]
+            hk = dict(hist_kwargs)
+            targeted = []
+            if this_nhist > nhist:
+                # every record of the pool alone, 1–3 times, in a buffer that it fills to the byte
+                hdr_bytes = (max(cs.hdr) + 7) // 8
+                for (en, a), sz in zip(cs.recs, cs.sizes):
+                    for k in (1, 2, 3):
+                        for slack in (0, 1):
+                            targeted.append({'buf': hdr_bytes + (k * sz + 7) // 8 + slack,
+                                             'plat': hrt.plat(openargs=cs.openargs), 'calls': [['open']] + [['trace', en, a]] * k})
+            if this_nhist > nhist:
+                hk.setdefault('mono_p', 0.6)      # exact fills: where a misplaced write leaves the buffer
+            try:
+                hists = [gen_hist(rnd, cs.ir, cs.dname, cs.openargs, cs.recs, cs.hdr, cs.sizes, **hk) for _ in range(this_nhist)]
+            except TypeError:                   # a generator that does not take the extra keyword
+                hists = [gen_hist(rnd, cs.ir, cs.dname, cs.openargs, cs.recs, cs.hdr, cs.sizes, **hist_kwargs)
+                         for _ in range(this_nhist)]
+            hists = targeted + hists
             for h, a in zip(hists, hrt.run_impl(cs.exe, cs.ir, cs.dname, hists)):
                 st['histories'] += 1
                 fails = oracle(cs, h, a)
